@@ -351,4 +351,19 @@ def joinStrings : List StrTok → Except LitErr StrTok
       -- later token overwriting the terminator of the previous one
       pure ⟨f.elem, (toks.map (·.units)).flatten, t1.len, t1.src⟩
 
+-- ------------------------------------------------------------------ vocabulary of the concatenation theorems
+
+/-- pointwise relation between two lists of the same length -/
+inductive AllPairs {α β : Type} (R : α → β → Prop) : List α → List β → Prop
+  | nil : AllPairs R [] []
+  | cons {a b as bs} : R a b → AllPairs R as bs → AllPairs R (a :: as) (b :: bs)
+
+/-- chibicc's `StringKind` of a prefix -/
+def kindOf : ChibiVerif.Spec.Literals.StrPrefix → StrKind
+  | .none => .none | .u8 => .utf8 | .u => .utf16 | .U => .utf32 | .L => .wide
+
+/-- token `t` is a string literal with prefix `p` as far as `join_adjacent_string_literals` can see -/
+def TokHasPrefix (t : StrTok) (p : ChibiVerif.Spec.Literals.StrPrefix) : Prop := getStringKind t = .ok (kindOf p) ∧ t.elem.size = p.elemSize
+
+
 end ChibiVerif.Literals
